@@ -2581,6 +2581,42 @@ def _own_coroutines(self, module):
 _TaskInterp._own_coroutines = _own_coroutines
 
 
+def pool_as_started(ctx):
+    """The Scheduler object that `gwf workers -n 2` builds when it runs the way a pool usually runs - detached, standard streams not a terminal (nohup, a batch job, a
+    service): `workers` -> start_cluster -> start_cluster_async are evaluated, the server start is a recorder.  Returns the fields of that object that the witnesses'
+    own stand-in does not set (working directory, core count, tables), so that the task coroutine is evaluated on the scheduler the command really creates."""
+    cache = ctx.shared.setdefault("_pool_as_started", {})
+    if "v" in cache:
+        return cache["v"]
+    fn = ctx.index.func("gwf.plugins.workers:workers")
+    got = []
+    hooks = {"asyncio.run": lambda coro, **k: coro, "attr:start_server": lambda recv, *a, **k: got.append(getattr(recv, "scheduler", None)),
+             "attr:isatty": lambda recv: False, "os.isatty": lambda fd: False, "multiprocessing.cpu_count": lambda: 3, "os.cpu_count": lambda: 3,
+             "asyncio.Semaphore": lambda *a, **k: Obj("semaphore"), "asyncio.BoundedSemaphore": lambda *a, **k: Obj("semaphore"),
+             "os.getcwd": lambda: tok("CWD"), "os.path.abspath": lambda p: p, "os.path.realpath": lambda p: p,
+             "os.environ.get": lambda k_, d_=None: d_, "os.getenv": lambda k_, d_=None: d_}
+    interp = PureInterp(ctx, hooks=hooks)
+    interp.max_depth = 20
+    dflt = click_defaults(ctx, fn)
+    names = fn.positional_params()
+    kwargs = {n: dflt.get(n) for n in names[1:]}
+    for cand in ("num_workers", "max_cores", "n", "workers"):
+        if cand in kwargs:
+            kwargs[cand] = 2
+    extra = {}
+    try:
+        interp.call(fn, (ctx_obj(ctx, working_dir=PROJ, config={}, backend="local"),), kwargs)
+        sch = next((s_ for s_ in got if isinstance(s_, Obj)), None)
+        if sch is not None:
+            for k_, v_ in sch.__dict__["_attrs"].items():
+                if k_ not in ("working_dir", "max_cores", "tasks", "task_states", "cores_ressource", "__class__", "_args", "_kwargs") and isinstance(v_, (bool, int, float, str, type(None))):
+                    extra[k_] = v_
+    except (Raised, Unsupported):
+        extra = {}
+    cache["v"] = extra
+    return extra
+
+
 def eval_task(ctx, deps=None, rc=0, timeout=False, spawn_fails=False, log_fails=False, cancel_at=None, unknown_dep=False, finished=(), leader_reaped=False, one_shot=False):
     """Scheduler.try_handle_task evaluated once. deps: {dep id: final LocalStatus member}. Returns (result dict, error)."""
     LOCAL = "gwf.backends.local"
@@ -2664,7 +2700,7 @@ def eval_task(ctx, deps=None, rc=0, timeout=False, spawn_fails=False, log_fails=
         "attr:write_text": lambda recv, data, *a, **k: (h_open(str(recv), "w"), ev.append(("write", str(recv), data)))[1],
     }
     from ..symeval import SymPath      # the pure part of pathlib is computed for real (joinpath, with_suffix, parent ...)
-    sched = Obj("scheduler", working_dir=SymPath("/wd"), max_cores=2, tasks=tasks, task_states=states, cores_ressource=sem, **{"__class__": ci})
+    sched = Obj("scheduler", working_dir=SymPath("/wd"), max_cores=2, tasks=tasks, task_states=states, cores_ressource=sem, **{"__class__": ci}, **pool_as_started(ctx))
     interp = _TaskInterp(ctx, hooks, cancel_at)
     interp.events = ev
     out = {"events": ev, "raised": None}
